@@ -15,8 +15,9 @@ from braxlint.universe import AnalysisError, default_repo
 REPO = [None]
 
 def set_repo(path):
+    if REPO[0] != path:
+        MODS.clear()
     REPO[0] = path
-    MODS.clear()
 
 _MJ_ENUM = {}
 
@@ -820,6 +821,10 @@ ATOM_INDEX = set()
 ATOM_ARGS = {}     # atom key -> (operator name, argument values) for substitution inside atoms
 
 def reset_atoms():
+    # a new session: module-level mutable globals of the analysed program (caches, registries) start empty again; WITHIN
+    # a session they persist across interpreters, as they do across calls in one process
+    for m_ in MODS.values():
+        m_.pop('globals', None)
     ATOMS.clear()
     ATOM_INDEX.clear()
     ATOM_ARGS.clear()
@@ -1056,6 +1061,8 @@ def _index_module(mod, tree):
                 m['alias'][a.asname or a.name] = n.module + '.' + a.name
         elif isinstance(n, ast.Assign) and len(n.targets) == 1 and isinstance(n.targets[0], ast.Name):
             m['consts'][n.targets[0].id] = n.value
+        elif isinstance(n, ast.AnnAssign) and isinstance(n.target, ast.Name) and n.value is not None:
+            m['consts'][n.target.id] = n.value
     MODS[mod] = m
     return m
 
@@ -1205,13 +1212,21 @@ def P_sum(x, axis=None, **kw):
     return x.sum(axis=axis)
 def P_concatenate(xs, axis=0):
     return np.concatenate([asarr(x) for x in xs], axis=axis)
+def _is_bool_dtype(dtype):
+    return dtype is bool or dtype == ('builtin', 'bool') or (isinstance(dtype, tuple) and len(dtype) == 2 and dtype[0] == 'dtype' and dtype[1] == 'bool')
+
+
 def P_zeros(shape, dtype=None):
     if isinstance(shape, int):
         shape = (shape,)
+    if _is_bool_dtype(dtype):
+        return np.zeros(tuple(shape), dtype=bool)          # a host-side boolean mask: native, so that `@`, `|`, `~` are boolean
     a = np.empty(tuple(shape), dtype=object); a.fill(Rat.lift(0)); return a
 def P_ones(shape, dtype=None):
     if isinstance(shape, int):
         shape = (shape,)
+    if _is_bool_dtype(dtype):
+        return np.ones(tuple(shape), dtype=bool)
     a = np.empty(tuple(shape), dtype=object); a.fill(Rat.lift(1)); return a
 def P_array(x, dtype=None):
     return asarr(x)
@@ -1219,6 +1234,8 @@ def P_tile(a, reps):
     return np.tile(asarr(a), reps)
 def P_eye(n, M=None, k=0, **kw):
     n = int(n); m = int(M) if isinstance(M, (int, np.integer)) else n; k = int(k)
+    if _is_bool_dtype(kw.get('dtype')):
+        return np.eye(n, m, k, dtype=bool)
     e = np.empty((n, m), dtype=object)
     for i in range(n):
         for j in range(m):
@@ -2086,6 +2103,19 @@ class Interp:
                 r = r * x
             return r
         # ---- further jax names a rewrite may reach for (each defined through modelled primitives)
+        if name in ('jax.lax.cummin', 'jax.lax.cummax', 'jax.lax.cumsum', 'jax.lax.cumprod'):
+            x = asarr(args[0]); ax = kw.get('axis', args[1] if len(args) > 1 else 0); rev = kw.get('reverse', args[2] if len(args) > 2 else False)
+            op = name.rsplit('.', 1)[1]
+            xs = np.moveaxis(x, ax, 0)
+            xs = xs[::-1] if rev else xs
+            out = [xs[0]]
+            for k_ in range(1, xs.shape[0]):
+                prev, cur = out[-1], xs[k_]
+                out.append({'cummin': lambda a, b: JNP['minimum'](a, b), 'cummax': lambda a, b: JNP['maximum'](a, b),
+                            'cumsum': lambda a, b: asarr(a) + asarr(b), 'cumprod': lambda a, b: asarr(a) * asarr(b)}[op](prev, cur))
+            out = np.stack([asarr(o) for o in out])
+            out = out[::-1] if rev else out
+            return np.moveaxis(out, 0, ax)
         if name == 'jax.lax.select':
             return self.tree_map(('prim', 'sel', lambda x, y: P_where(args[0], x, y)), args[1], args[2])
         if name == 'jax.lax.clamp':
@@ -2535,7 +2565,30 @@ class Interp:
         if name == 'isinstance':
             v, c = args
             if isinstance(c, ClsRef):
-                return isinstance(v, Struct) and v.cls == c.node.name
+                if not isinstance(v, Struct):
+                    return False
+                if v.cls == c.node.name:
+                    return True
+                # subclass relation, read off the class definitions of the analysed program
+                home = v.home or STRUCT_HOME.get(v.cls)
+                seen_, todo = set(), [(home, v.cls)]
+                while todo:
+                    hm, cn = todo.pop()
+                    if hm is None or (hm, cn) in seen_:
+                        continue
+                    seen_.add((hm, cn))
+                    try:
+                        cd = load(hm)['classes'].get(cn)
+                    except (OSError, AnalysisError):
+                        cd = None
+                    if cd is None:
+                        continue
+                    for b_ in cd.bases:
+                        bn = ast.unparse(b_).split('[')[0].split('.')[-1]
+                        if bn == c.node.name:
+                            return True
+                        todo.append((hm, bn))
+                return False
             if isinstance(c, ModRef) and c.name.endswith('ndarray') or isinstance(c, ModRef) and c.name.endswith('Array'):
                 return isinstance(v, (np.ndarray, Rat))
             if isinstance(c, ModRef) and c.name.split('.')[-1] in ('Mapping', 'MutableMapping', 'dict', 'Dict'):
@@ -2990,7 +3043,8 @@ def subst_atoms(v, f):
             changed = any((isinstance(x, Rat) and not x.same(y)) or (isinstance(x, np.ndarray) and not same(x, y))
                           for x, y in zip(args, new))
             if changed:
-                r = uf(name, *new)
+                # commutative atoms keep their arguments sorted: re-canonicalise after the substitution
+                r = _minmax(name, *new) if name in ('min', 'max') and len(new) == 2 else uf(name, *new)
         memo[a] = r
         return r
 
@@ -3223,7 +3277,9 @@ JNP.update({
     'average': lambda x, axis=None, weights=None: (asarr(x).sum(axis=axis) / (asarr(x).size if axis is None else asarr(x).shape[axis])) if weights is None
                else (asarr(x) * asarr(weights)).sum(axis=axis) / asarr(weights).sum(axis=axis),
     'count_nonzero': lambda x, axis=None: np.count_nonzero(_concrete(x, 'count_nonzero'), axis=axis),
+    'log2': lambda x: (np.log2(_concrete(x, 'log2')) if all(Rat.lift(v).is_const() for v in asarr(x).ravel()) else unary('log2')(x)),
     'flatnonzero': lambda x: np.flatnonzero(_concrete(x, 'flatnonzero')),
+    'ix_': lambda *a: np.ix_(*[np.asarray(_concrete(x, 'ix_')).astype(int) for x in a]),
     'nonzero': lambda x, **k: np.nonzero(_concrete(x, 'nonzero')),
     'argwhere': lambda x, **k: np.argwhere(_concrete(x, 'argwhere')),
     'isin': lambda a, b, **k: np.isin(_concrete(a, 'isin'), _concrete(b, 'isin')),
